@@ -223,6 +223,24 @@ func c17IndepOps(in *c17indep) []c17op {
 			}
 			return fmt.Sprint(n, dumpOf(s1), e1, e2, dumpOf(s3), e3)
 		}},
+		{"indep.ScanDelimited-results-kept", func(_ *c17shared, a int) string {
+			// the exported scanning helper: what it returns (also together with
+			// an error) belongs to the caller, who keeps it across later scans
+			esc := map[rune]rune{'/': '/'}
+			body := in.strs[a%len(in.strs)] + "[0-9]+"
+			part, err1 := influxql.ScanDelimited(strings.NewReader("/"+body), '/', '/', esc, true)
+			bad, err2 := influxql.ScanDelimited(strings.NewReader("/a\\qb"+body+"/"), '/', '/', map[rune]rune{'n': '\n'}, false)
+			whole, err3 := influxql.ScanDelimited(strings.NewReader("/"+body+"/"), '/', '/', esc, true)
+			k1, k2, k3 := string(part), string(bad), string(whole)
+			for i := 0; i < 3; i++ {
+				_, _ = influxql.ScanDelimited(strings.NewReader("/another_"+strconv.Itoa(a+i)+"_pattern.*/"), '/', '/', esc, true)
+				_, _ = influxql.ParseExpr("h =~ /yet_" + strconv.Itoa(a) + "_another/")
+			}
+			if string(part) != k1 || string(bad) != k2 || string(whole) != k3 {
+				return fmt.Sprintf("results changed after later scans: %q %q %q were %q %q %q", part, bad, whole, k1, k2, k3)
+			}
+			return fmt.Sprint(k1, err1, k2, err2, k3, err3)
+		}},
 		{"indep.Lookup", func(_ *c17shared, a int) string {
 			return fmt.Sprint(influxql.Lookup(gen.Keywords[a%len(gen.Keywords)]), influxql.Lookup(in.strs[a%len(in.strs)]))
 		}},
